@@ -44,15 +44,19 @@ def gen_units(rng, wellformed, w):
         out = []
         for _ in range(n):
             r = rng.random()
-            cp = rng.choice([34, 92, 47, 8, 9, 10, 12, 13, 0, 1, 0x1F, 0x7F]) if r < 0.4 else jsongen.gen_cp(rng)
+            # every control character (each must come out escaped: only \b \t \n \f \r have short forms), quote, backslash
+            cp = rng.choice([34, 92, 47, 0x7F] + list(range(0, 32))) if r < 0.4 else jsongen.gen_cp(rng)
             out += jsongen.encode_cp(cp, w)
         return out
     lim = {1: 256, 2: 0x10000, 4: 0x110000}[w]
-    return [rng.choice([0, 1, 8, 9, 10, 12, 13, 0x1F, 34, 92, 47, 0x7F, 0x80, 0xFF, 0xD800 % lim, 0xDFFF % lim, rng.randrange(0, lim)]) for _ in range(n)]
+    return [rng.choice([0, 1, 8, 9, 10, 11, 12, 13, 14, 0x1F, 34, 92, 47, 0x7F, 0x80, 0xFF, 0xD800 % lim, 0xDFFF % lim, rng.randrange(0, 32), rng.randrange(0, lim)]) for _ in range(n)]
 
 
 def gen_tree(rng, depth, wellformed, w, top=True):
     r = rng.random()
+    if top and rng.random() < 0.12:
+        # the root itself is a pointer-to-value (or a chain of them): Stringify must pass the precision on
+        return "*" * rng.choice([1, 1, 2]) + gen_tree(rng, depth, wellformed, w, True)
     if top or (depth > 0 and r < 0.3):
         if rng.random() < 0.5:
             return "[" + ";".join(gen_tree(rng, depth - 1, wellformed, w, False) for _ in range(rng.choice([0, 1, 2, 3, 5]))) + "]"
